@@ -28,12 +28,14 @@ import (
 	"strings"
 	"sync"
 	"testing"
+	"time"
 
 	"github.com/btcsuite/btcd/btcutil/v2"
 	"github.com/btcsuite/btcd/chainhash/v2"
 	"github.com/btcsuite/btcwallet/walletdb"
 	"github.com/lightningnetwork/lnd/channeldb"
 	"github.com/lightningnetwork/lnd/chanstate"
+	"github.com/lightningnetwork/lnd/clock"
 	"github.com/lightningnetwork/lnd/fn/v2"
 	"github.com/lightningnetwork/lnd/input"
 	"github.com/lightningnetwork/lnd/keychain"
@@ -389,7 +391,7 @@ func (d *vchStopDB) end() int {
 // (SyncPending -> SyncPendingChannel -> fullSyncOpenChannel), every later
 // read / write of the channel goes to the new DB.
 func vchMigrate(t *testing.T, lc *LightningChannel, backend string,
-	port int) (*vchStopDB, error) {
+	port int, mods ...channeldb.OptionModifier) (*vchStopDB, error) {
 
 	dir := t.TempDir()
 	var (
@@ -414,7 +416,7 @@ func vchMigrate(t *testing.T, lc *LightningChannel, backend string,
 		return nil, err
 	}
 	stop := &vchStopDB{Backend: inner, limit: -1}
-	db, err := channeldb.CreateWithBackend(stop)
+	db, err := channeldb.CreateWithBackend(stop, mods...)
 	if err != nil {
 		_ = inner.Close()
 		return nil, err
@@ -2873,9 +2875,37 @@ func TestVerifChan(t *testing.T) {
 			if paramsOn {
 				vchSetParams(master.fork(uint64(ci)^0x7a3d51), a, b)
 			}
+			// DB OPTIONS that change what the state-machine transactions
+			// write, drawn per case and party (VERIF_CHAN_DBOPTS=0: none):
+			// store-final-htlc-resolutions (UpdateChannelCommitment then
+			// also writes the final-htlcs bucket), no-revlog-amt-data
+			// (revocation-log entries without amounts),
+			// tombstone-closed-channels, a test clock.
 			var dbs [2]*vchStopDB
+			dbOpts := map[string]any{}
 			for i, lc := range []*LightningChannel{a, b} {
-				dbs[i], err = vchMigrate(t, lc, backend, 18556-i)
+				var mods []channeldb.OptionModifier
+				o := map[string]bool{}
+				if vEnvInt("VERIF_CHAN_DBOPTS", 1) != 0 {
+					or := master.fork(uint64(ci)*2 + uint64(i) ^ 0x51c3a7)
+					o["store_final_htlc_resolutions"] = or.intn(2) == 0
+					o["no_revlog_amt_data"] = or.intn(4) == 0
+					o["tombstone_closed_channels"] = or.intn(2) == 0
+					o["test_clock"] = or.intn(2) == 0
+					mods = append(mods,
+						channeldb.OptionStoreFinalHtlcResolutions(
+							o["store_final_htlc_resolutions"]),
+						channeldb.OptionNoRevLogAmtData(
+							o["no_revlog_amt_data"]),
+						channeldb.OptionTombstoneClosedChannels(
+							o["tombstone_closed_channels"]))
+					if o["test_clock"] {
+						mods = append(mods, channeldb.OptionClock(
+							clock.NewTestClock(time.Unix(1_700_000_000, 0))))
+					}
+				}
+				dbOpts[vchNames[i]] = o
+				dbs[i], err = vchMigrate(t, lc, backend, 18556-i, mods...)
 				if err != nil {
 					t.Fatalf("vchMigrate(%s): %v", backend, err)
 				}
@@ -2926,7 +2956,7 @@ func TestVerifChan(t *testing.T) {
 			}
 			row := map[string]any{
 				"case": ci, "seed": vSeed(), "chan_type": ty.name,
-				"backend": backend, "kvdb_retry": kvRetry,
+				"backend": backend, "kvdb_retry": kvRetry, "db_opts": dbOpts,
 				"cfg":     c.cfg(ty.name),
 				"init": map[string]any{
 					"a": c.partyDump(a), "b": c.partyDump(b),
